@@ -1,6 +1,6 @@
 (* Script.v — interpreter of case scripts over the model (the same scripts the Rust harness executes
    on the real crate) and rendering of observations as token lists.  MODEL FILE: definitions only. *)
-From PT Require Export XQ.
+From PT Require Export XQ Cli.
 
 Definition Lx := xq.
 Notation O := XQops.
@@ -43,6 +43,7 @@ Inductive op :=
   | OCmpTopo (k : nat) | OCmpBranch (k : nat) (tips : bool) | ODm | ODmr | ODmStore
   | OToNewick | OToFmt (f : nformat) | OToNexus | OLayout | ORtNewick | ORtFmt (f : nformat) | OReparse (k : nat)
   | OSetName (i : nat) (nm : str) | ORenameByName (old nm : str) | OSetPedge (i : nat) (e : option xq)
+  | OCliCollapse (thr : xq) (excl : bool) | OCliRemove (tips : list str)
   | OTril (n i j : nat) | ORowvec (n k : nat) | OTrilN (i j : N) | ORowvecN (k : N)
   | OMSel (k : nat) | OMNew (taxa : list str) (vals : list xq) | OMWithSize (n : nat)
   | OMSetTaxa (taxa : list str) | OMGet (a b : str) | OMSet (a b : str) (v : xq) | OMTaxaIndex (a : str)
@@ -308,6 +309,16 @@ Definition run_op (s : st) (o : op) : res * st :=
           | Ok a' => (res_of (to_newick a') (fun r2 => [TRs r] ++ dump_arena a' ++ [TRs r2]), s)
           | other => (res_of other (fun _ => []), s)
           end
+      | other => (res_of other (fun _ => []), s)
+      end
+  | OCliCollapse thr excl =>
+      match cli_collapse O a thr excl with
+      | Ok a' => (ROk [], set_cur_arena s a')
+      | other => (res_of other (fun _ => []), s)
+      end
+  | OCliRemove tips =>
+      match cli_remove O a tips with
+      | Ok a' => (ROk [], set_cur_arena s a')
       | other => (res_of other (fun _ => []), s)
       end
   | OSetName i nm =>
